@@ -280,6 +280,9 @@ def well_known_names(prog, rep, rule):
 # off-by-one range guards in encoders
 
 _FIELD_MAX = {2 ** 8 - 1: 1, 2 ** 16 - 1: 2, 2 ** 24 - 1: 3, 2 ** 32 - 1: 4}
+# a split one above the boundary (`x <= 0x10000`, `x > 0x10000`): the first value that needs n+1 octets is treated
+# as fitting into n (2**8 is left out: 256 is also a plausible byte count)
+_FIELD_OVER = {2 ** 16: 2, 2 ** 24: 3, 2 ** 32: 4}
 
 
 def _raising_conditions(test):
@@ -496,7 +499,7 @@ def boundary_splits(prog, pred, extra_source=None):
             for i, op in enumerate(n.ops):       # chained comparisons: every adjacent pair
                 left, right = operands[i], operands[i + 1]
                 split = _split_of(op, left, right, fold)
-                if split is not None and split + 1 in _FIELD_MAX:
+                if split is not None and (split + 1 in _FIELD_MAX or split in _FIELD_OVER):
                     sites.append((finfo, n, split))
                     break
 
@@ -543,6 +546,12 @@ def report_boundary_splits(prog, rep, rule, pred):
     real = [x for x in sites if x[0] is not None]
     for fn, c, split in real:
         key = 'boundary:%s:%s' % (fn.qualname, src_of(c))
+        if split in _FIELD_OVER:
+            rep.bad(rule, key, file=fn.file, line=c.lineno, func=fn.qualname,
+                    found='%s separates %d from %d: %d, the first value that does not fit into %d octets, is treated '
+                          'as fitting' % (src_of(c), split, split + 1, split, _FIELD_OVER[split]),
+                    expected='the boundary of an n-octet field lies between 2**(8n) - 1 and 2**(8n)', key=key)
+            continue
         rep.bad(rule, key, file=fn.file, line=c.lineno, func=fn.qualname,
                 found='%s separates %d from %d: the largest value of a %d-octet field is treated as not fitting, '
                       'while the decoder yields it' % (src_of(c), split, split + 1, _FIELD_MAX[split + 1]),
